@@ -122,4 +122,9 @@ of the model) -/
 theorem C17_network_glue_as_modelled :
     Consts.netWithFilterReplaces = true ∧ Consts.netRecvFiltersThenPadsTo8 = true := by decide
 
+/-- an entry holds what its caller specified: every constructor (`with_*`) and setter (`set_*`) of the current source stores
+exactly its argument in exactly its field and leaves the others unspecified / untouched; `Filter::default()` is an accept list -/
+theorem C17_entries_as_constructed :
+    Consts.filterItemCtorsStoreTheirArgument = true ∧ Consts.filterDefaultIsAccept = true := by decide
+
 end Glonax.Thm.C17
